@@ -360,9 +360,145 @@ func finish(x *explore.X, w *world.World, peers ...*world.Peer) {
 	}
 }
 
+// ---- two tunnels at once on ONE proxy ---------------------------------------------------------------------------
+
+// twoTunnels: tunnels A and B are open at the same time on one proxy (direct, or through one upstream HTTP
+// proxy); EVERY sequence of depth events out of {a segment of 5 or 40000 bytes in any of the four
+// directions, target A stops reading / resumes}; after every event each of the four byte streams must be
+// exactly what its sender wrote - nothing lost, duplicated, reordered, or delivered to the other tunnel.
+func twoTunnels(x *explore.X, depth int) {
+	viaUp := x.ChooseFree("routing", 2) == 1
+	opts := world.Options{}
+	if viaUp {
+		opts.Upstream = "http://up.test:8080"
+	}
+	w, err := world.Start(opts)
+	if err != nil {
+		x.Failf("harness/start", "%v", err)
+		return
+	}
+	servers := map[string]*world.Server{}
+	for _, a := range []string{"a.test:443", "b.test:443", "up.test:8080"} {
+		servers[a], _ = w.Server(a)
+	}
+	type dir struct {
+		name     string
+		from, to *world.Peer
+		base     int // bytes the receiver held before the tunnel was up
+		sent     []byte
+	}
+	var dirs []*dir
+	var peers []*world.Peer
+	for _, t := range []string{"a", "b"} {
+		cl, _ := w.Client()
+		authority := t + ".test:443"
+		cl.Send([]byte("CONNECT " + authority + " HTTP/1.1\r\nHost: " + authority + "\r\n\r\n"))
+		addr := authority
+		if viaUp {
+			addr = "up.test:8080"
+		}
+		tg := servers[addr].Accept()
+		if tg == nil {
+			x.Failf("tunnel/no-dial", "%s not dialled; client got %q", addr, world.Clip(cl.Recv()))
+			return
+		}
+		if viaUp {
+			rq := httpwire.ParseRequests(tg.Recv())
+			if len(rq.Msgs) != 1 || rq.Msgs[0].Method != "CONNECT" || rq.Msgs[0].Target != authority {
+				x.Failf("tunnel/upstream-connect", "upstream proxy received %q", world.Clip(tg.Recv()))
+				return
+			}
+			tg.Send([]byte("HTTP/1.1 200 OK\r\n\r\n"))
+		}
+		rs := httpwire.ParseResponses(cl.Recv(), []string{"CONNECT"}, false)
+		if len(rs.Msgs) != 1 || rs.Msgs[0].Status != 200 {
+			x.Failf("tunnel/not-established", "tunnel %s: client got %q", t, world.Clip(cl.Recv()))
+			return
+		}
+		peers = append(peers, cl, tg)
+		dirs = append(dirs, &dir{name: t + ":client->target", from: cl, to: tg, base: len(tg.Recv())},
+			&dir{name: t + ":target->client", from: tg, to: cl, base: len(cl.Recv())})
+	}
+	holder := dirs[0].to // target of tunnel A
+	check := func(hist string, final bool) bool {
+		x.Check()
+		for _, d := range dirs {
+			got := d.to.Recv()[d.base:]
+			if d.to.Hold && !final {
+				if !bytes.HasPrefix(d.sent, got) {
+					x.Failf("transparency/two-tunnels", "after %s: %s (receiver not reading): holds %d bytes that are not a prefix of the %d sent", hist, d.name, len(got), len(d.sent))
+					return false
+				}
+				continue
+			}
+			if !bytes.Equal(got, d.sent) {
+				k := 0
+				for k < len(got) && k < len(d.sent) && got[k] == d.sent[k] {
+					k++
+				}
+				x.Failf("transparency/two-tunnels", "after %s: %s: receiver holds %d bytes, sender has sent %d (first difference at offset %d)", hist, d.name, len(got), len(d.sent), k)
+				return false
+			}
+		}
+		return true
+	}
+	hist := ""
+	salt := byte(0)
+	for step := 0; step < depth; step++ {
+		type event struct {
+			name string
+			do   func()
+		}
+		var evs []event
+		for _, d := range dirs {
+			d := d
+			for _, n := range []int{5, 40000} {
+				n := n
+				evs = append(evs, event{fmt.Sprintf("%s(%d)", d.name, n), func() {
+					salt += 3
+					b := h1x.Pattern(n, salt)
+					d.sent = append(d.sent, b...)
+					d.from.Send(b)
+				}})
+			}
+		}
+		if holder.Hold {
+			evs = append(evs, event{"a:target-resumes", func() { holder.Hold = false; holder.C.SetLimit(0); holder.Recv(); world.Settle(0) }})
+		} else {
+			evs = append(evs, event{"a:target-stops-reading", func() { holder.Recv(); holder.Hold = true; holder.C.SetLimit(4096) }})
+		}
+		ev := evs[x.ChooseFree(fmt.Sprintf("event%d", step), len(evs))]
+		hist += ev.name + " "
+		x.Logf("%s", ev.name)
+		ev.do()
+		if !check(hist, false) {
+			return
+		}
+	}
+	if holder.Hold {
+		holder.Hold = false
+		holder.C.SetLimit(0)
+		holder.Recv()
+		world.Settle(0)
+	}
+	if !check(hist+"end", true) {
+		return
+	}
+	x.Outcome(fmt.Sprintf("up=%v %d/%d/%d/%d", viaUp, len(dirs[0].sent) > 0, len(dirs[1].sent) > 0, len(dirs[2].sent) > 0, len(dirs[3].sent) > 0))
+	for _, p := range peers {
+		p.Close()
+	}
+	if err := w.Stop(); err != nil {
+		x.Failf("shutdown", "%v", err)
+	}
+	if l := world.Leaks(); l != "" {
+		x.Failf("goroutine-leak", "%s", l)
+	}
+}
+
 func TestC03(t *testing.T) {
 	s := explore.NewSuite(t, "C03", "model_checking",
-		"routing(6: direct, upstream http, upstream https, upstream socks5, custom connect function, HTTP/1.1 Upgrade) [full product] x client script and target script (1-2 quick / 1-3 thorough segments of sizes {5,0,1,4096,32768,32769,1MiB+1}, first segment optionally coalesced with the request head resp. with the far side's own reply) [deviation-bounded, D=2 quick / 3 thorough] x ALL interleavings of the two scripts' events (segment, ..., FIN) [full]; a back-pressure family in which one endpoint stops reading (4 KiB socket buffer) and resumes at every possible point of the interleaving, the opposite direction being checked exactly meanwhile; a state is a quiescent event history; at every state both directions are compared byte for byte, EOF visibility is compared with the sender's FIN, and socket release with 'both directions finished'; non-trivial = at least one state was checked")
+		"routing(6: direct, upstream http, upstream https, upstream socks5, custom connect function, HTTP/1.1 Upgrade) [full product] x client script and target script (1-2 quick / 1-3 thorough segments of sizes {5,0,1,4096,32768,32769,1MiB+1}, first segment optionally coalesced with the request head resp. with the far side's own reply) [deviation-bounded, D=2 quick / 3 thorough] x ALL interleavings of the two scripts' events (segment, ..., FIN) [full]; a back-pressure family in which one endpoint stops reading (4 KiB socket buffer) and resumes at every possible point of the interleaving, the opposite direction being checked exactly meanwhile; a state is a quiescent event history; at every state both directions are compared byte for byte, EOF visibility is compared with the sender's FIN, and socket release with 'both directions finished'; (two-tunnels) two tunnels open at once on one proxy (direct / through one upstream HTTP proxy), EVERY sequence of 3 (quick) / 4 (thorough) events out of {5- or 40000-byte segment in any of the four directions, one target stops reading / resumes}, all four byte streams compared exactly after every event; non-trivial = at least one state was checked")
 	s.Assume = []string{"simnet models TCP half-close (FIN) and release", "virtual time is not advanced inside a tunnel, so the 60 s forced-close grace period of bicopy never expires (not part of the statement)", "crypto/tls close_notify is the half-close of the HTTPS-proxy routing"}
 	for _, tier := range []string{"quick", "thorough"} {
 		segs := map[string]int{"quick": 2, "thorough": 3}[tier]
@@ -371,5 +507,9 @@ func TestC03(t *testing.T) {
 		s.Add(explore.Scenario{Name: "back-pressure-" + tier, Remote: true, Tiers: []string{tier}, MaxDev: map[string]int{"quick": 1, "thorough": 2},
 			Run: func(x *explore.X) { world.Run(t, x, func() { scenario(x, 2, true) }) }})
 	}
+	s.Add(explore.Scenario{Name: "two-tunnels-quick", Remote: true, Tiers: []string{"quick"},
+		Run: func(x *explore.X) { world.Run(t, x, func() { twoTunnels(x, 3) }) }})
+	s.Add(explore.Scenario{Name: "two-tunnels-thorough", Remote: true, Tiers: []string{"thorough"},
+		Run: func(x *explore.X) { world.Run(t, x, func() { twoTunnels(x, 4) }) }})
 	s.Main()
 }
